@@ -33,10 +33,12 @@ FORBIDDEN = re.compile(
 TRUSTED_BASE = [
     'Coq 8.16.1 kernel (coqc); vm_compute for finite-domain theorems and Examples; no native_compute',
     'std++ 1.8.0, coq-record-update, Coq standard library (no axioms used: see assumptions)',
-    'translators /verif/translator/*.py (Python ast / line scanners) for Generated/*.v',
+    'translators /verif/translator/*.py (Python ast / line scanners) for Generated/*.v; gen_lalr.py runs the '
+    'repository grammar module under PLY (/venv/bin/python) to obtain the LALR tables: PLY table construction trusted',
     'extraction (ExtrOcamlBasic directives only) + /verif/ocaml/main.ml driver: used for the correspondence check only',
     'correspondence harness /verif/harness (digests, order-oracle recording, generators): model/code agreement is tested, not proved',
-    'CPython semantics of dict/set, pickle/json, PLY are modelled or trusted, not verified',
+    'CPython semantics of dict/set and pickle/json/shelve containers are modelled or trusted, not verified; '
+    'PLY: lexer rule order and LR driver modelled, LALR table construction trusted',
 ]
 
 
